@@ -491,8 +491,12 @@ def pipeline(ctx, mcs, trace_spec, records, key_of=None, what_of=None, trace_cfg
         mv, _ = validate_trace(trace_spec, muts, cfg=trace_cfg, parallel=min(parallel, 4), timeout=timeout, heap=heap)
         missed = [m['id'] for m in muts if m['id'] not in mv]
         binding = {'mutated_records': len(muts), 'rejected': len(muts) - len(missed), 'operations': sorted(per)}
-        if missed:
+        if missed and not verdicts:
             raise MachineryError('binding demonstration failed: corrupted records accepted by %s: %s' % (trace_spec, missed[:5]))
+        if missed:
+            # the implementation under test is already being rejected (violations below): a mutator can be vacuous on the
+            # malformed observations of a broken tree (e.g. a result that raised); report the violations, note the gap
+            binding['accepted_mutants_on_a_violating_tree'] = missed[:10]
     byid = {r['id']: r for r in records}
     for rid, clauses in verdicts.items():
         rec = byid.get(rid, {'id': rid, 'op': '?'})
